@@ -26,6 +26,13 @@ func Parse(path string) (tree *ast.AST, err error) {
 	// such a panic as a parse error.
 	defer func() {
 		if r := recover(); r != nil {
+			// An error already reported takes precedence: the parser goes on
+			// after a grammar action reports one and may then trip over the
+			// node that action did not build.
+			if len(lexer.errors) > 0 {
+				tree, err = nil, fmt.Errorf("%w: %v", ErrParse, lexer.errors[0])
+				return
+			}
 			tree, err = nil, fmt.Errorf("%w: %v at %v", ErrParse, r, lexer.pos())
 		}
 	}()
